@@ -10,10 +10,13 @@ MCChan == 1..3
 MCChanType == <<[baudDb |-> 15051500, slotDb |-> 16989700],
                 [baudDb |-> 18061800, slotDb |-> 18750613],
                 [baudDb |-> 19542425, slotDb |-> 20000000]>>
-\* second crossing, same three frequencies: 64 GBd / 75 GHz, 32 GBd / 50 GHz, 64 GBd / 75 GHz
-MCChanType2 == <<[baudDb |-> 18061800, slotDb |-> 18750613],
+\* second crossing, same three frequencies: a SINGLE-RATE spectrum - every carrier has the baud rate the network was
+\* designed with (the SI reference, 32 GBd) - laid on a flexible grid: slots of 75 / 50 / 100 GHz (wider than / equal to /
+\* twice the reference spacing).  Against the first crossing every carrier changes its baud rate or its slot width (or
+\* both); a constant-PSD target is now the same for all three carriers while a per-slot-width target still differs per carrier
+MCChanType2 == <<[baudDb |-> 15051500, slotDb |-> 18750613],
                  [baudDb |-> 15051500, slotDb |-> 16989700],
-                 [baudDb |-> 18061800, slotDb |-> 18750613]>>
+                 [baudDb |-> 15051500, slotDb |-> 20000000]>>
 MCStages == {"designed", "reloaded", "yang"}
 MCStageOne == {"designed"}
 \* node: pch -20 dBm, psd -35 dB(mW/GHz) (-19.95 dBm at 32 GBd), psw -37 dB(mW/GHz) (-20.01 dBm in 50 GHz)
